@@ -174,6 +174,17 @@ CONTROLS = [
         '                false,\n                strip_comments,\n                resolve_depth,\n                include_depth + 1,\n            )?;', 1)]),
     ('g7-keyword-boundary-without-dollar', 'G7', 'syn', 'keyword:boundary-alphabet', [(PARSER + 'utils.rs',
         'terminated(map(tag(t), into_locate), peek(none_of(AZ09_DOLLAR))),', 'terminated(map(tag(t), into_locate), peek(none_of(AZ09_))),', 0)]),
+    ('k2-binary-search-on-unsorted-tables', 'K2', 'syn', 'binary-search-unsorted', [(PARSER + 'utils.rs',
+        '    for k in keywords {\n        if s.fragment() == k {\n            return true;\n        }\n    }\n    false', '    keywords.binary_search(s.fragment()).is_ok()', 1)]),
+    ('x9-include-paths-emptied-under-ignore-include', 'X9', 'syn', 'include_paths:rebound', [(API,
+        '    ignore_include: bool,\n    allow_incomplete: bool,\n) -> Result<(SyntaxTree, Defines), Error> {\n    let (text, defines) = preprocess_str(',
+        '    ignore_include: bool,\n    allow_incomplete: bool,\n) -> Result<(SyntaxTree, Defines), Error> {\n    let include_paths: &[U] = if ignore_include { &[] } else { include_paths };\n    let (text, defines) = preprocess_str(', 1)]),
+    ('x13-expansion-fast-path-skips-nested-run', 'X13', 'syn', 're-preprocess-bypassed', [(PPF,
+        '            let (replaced, new_defines) = preprocess_str(\n                &replaced,',
+        '            if define.arguments.is_empty() && !replaced.contains(\'`\') {\n                return Ok(Some((replaced, text.origin.clone(), defines.clone())));\n            }\n\n            let (replaced, new_defines) = preprocess_str(\n                &replaced,', 1)]),
+    ('g22-block-comment-closer-searched-with-fallback', 'G22', 'syn', 'block_comment:closer-optional', [(PARSER + 'general/comments.rs',
+        '    let (s, b) = many0(alt((\n        is_not("*"),\n        terminated(tag("*"), peek(not(tag("/")))),\n    )))(s)?;\n    let (s, c) = tag("*/")(s)?;\n    let mut a = a;\n    for b in b {\n        a = concat(a, b).unwrap();\n    }\n    let a = concat(a, c).unwrap();',
+        '    let len = match s.fragment().find("*/") {\n        Some(x) => x + 2,\n        None => s.fragment().len(),\n    };\n    let (s, b) = take(len)(s)?;\n    let a = concat(a, b).unwrap();', 1)]),
     ('s1-version-stack-not-reset', 'S1', 'mir', 'not-reset:CURRENT_VERSION', [(PARSER + 'lib.rs', '    clear_directive();\n    clear_version();\n}', '    clear_directive();\n}', 1)]),
     ('s2-grammar-function-exported', 'S2', 'mir', 'source_text', [(PARSER + 'source_text/system_verilog_source_text.rs', 'pub(crate) fn source_text(s: Span)', 'pub fn source_text(s: Span)', 1)]),
     ('s3-scope-leak-on-error-path', 'S3', 'mir', 'text_macro_usage:unbalanced', [(CD,
